@@ -46,8 +46,7 @@ impl PartialEq for SExp {
 
 impl SExp {
 //@ extract fn nilp from src/compiler/sexp.rs in impl SExp
-//@ sig r
-    ensures r == (tree_of(true, *self) == tnil())
+//@ sigfile r contracts/sexp_nilp.sig
 //@ before stmt @<match self>@
         proof {
             match self {
